@@ -2,6 +2,7 @@ package rules
 
 import (
 	"go/token"
+	"strings"
 
 	"golang.org/x/tools/go/ssa"
 
@@ -123,5 +124,151 @@ func c10system(c *Ctx) {
 			}
 		}
 		r.Check(ok && n > 0, "PATH", fkey(fn)+"/default-exclusive", c.Pos(fn.Pos()), "an absent flag means exclusive", "with the CPUSetExclusive flag absent IsCPUSetExclusive does not return true: the documented default (exclusive) is lost and BE pods share the system-QoS CPUs")
+	}
+}
+
+// c10filters: who counts as "not best-effort" for the budget, and when two cpuset strings are the same set.
+func c10filters(c *Ctx) {
+	r := c.R
+	r.Decides("a host application is left out of the non-BE consumption only when it is BE and declares a cgroup under the kubepods best-effort directory (a BE host application elsewhere - or without a declared path - is not restrained by the BE cgroup, so its usage must shrink the budget); two cpuset strings are called equal only when they are textually identical or their parsed sets are Equal (a same-size test lets a changed set go unwritten)")
+	r.Rule("PATH(host app filter): helpers.NonBEHostAppFilter returns true in each of the cases QoS != BE; QoS == BE with CgroupPath == nil; QoS == BE with a CgroupPath whose Base is not the kubepods best-effort base")
+	if fn := c.Fn("pkg/koordlet/qosmanager/helpers", "", "NonBEHostAppFilter"); fn != nil {
+		var qos, base []*ssa.BinOp
+		var path []ssa.Value
+		for _, b := range fn.Blocks {
+			for _, in := range b.Instrs {
+				switch x := in.(type) {
+				case *ssa.BinOp:
+					if x.Op != token.EQL && x.Op != token.NEQ {
+						continue
+					}
+					px := an.Path(x.X)
+					switch {
+					case strings.HasSuffix(px, ".QoS"):
+						qos = append(qos, x)
+					case strings.HasSuffix(px, ".Base"):
+						base = append(base, x)
+					}
+				case *ssa.UnOp:
+					if x.Op == token.MUL {
+						if _, f, _, ok := an.FieldOf(x.X); ok && f == "CgroupPath" {
+							path = append(path, x)
+						}
+					}
+				}
+			}
+		}
+		set := func(f an.Facts, bos []*ssa.BinOp, equal bool) {
+			for _, bo := range bos {
+				if (bo.Op == token.EQL) == equal {
+					f[bo] = an.True
+				} else {
+					f[bo] = an.False
+				}
+			}
+		}
+		allTrue := func(f an.Facts) bool {
+			reach := an.Explore(fn, nil, f, nil)
+			n := 0
+			for _, ret := range reach.Returns() {
+				for _, alt := range reach.Alts(ret) {
+					n++
+					if reach.EvalAlt(alt, 0) != an.True {
+						return false
+					}
+				}
+			}
+			return n > 0
+		}
+		f1 := an.Facts{}
+		set(f1, qos, false)
+		f2 := an.Facts{}
+		set(f2, qos, true)
+		for _, p := range path {
+			f2[p] = an.Nil
+		}
+		f3 := an.Facts{}
+		set(f3, qos, true)
+		set(f3, base, false)
+		for _, p := range path {
+			f3[p] = an.NonNil
+		}
+		ok1, ok2, ok3 := allTrue(f1), allTrue(f2), allTrue(f3)
+		r.Check(len(qos) > 0 && len(base) > 0 && len(path) > 0 && ok1 && ok2 && ok3, "PATH", fkey(fn)+"/counts-as-non-BE", c.Pos(fn.Pos()), "only a BE application under the kubepods best-effort base is left out",
+			sprintf("a host application that the BE cgroup does not restrain is left out of the non-BE consumption (counted when not BE=%v, when BE without a declared cgroup path=%v, when BE under another base=%v): the BE budget no longer shrinks with its usage", ok1, ok2, ok3))
+	}
+
+	r.Rule("EQUAL(cpuset strings): cpuset.IsEqualStrCpus returns true only under a == b or as the result of <Parse(a)>.Equals(<Parse(b)>) with the two different parsed sets as operands; a parse error returns false")
+	if fn := c.Fn("pkg/util/cpuset", "", "IsEqualStrCpus"); fn != nil {
+		var pa, pb *ssa.Call
+		for _, cl := range an.Calls(fn, false) {
+			if cc, ok := cl.(*ssa.Call); ok && an.ShortCallee(&cc.Call) == "Parse" {
+				if isParamOf(fn, cc.Call.Args[0], 0) {
+					pa = cc
+				} else if isParamOf(fn, cc.Call.Args[0], 1) {
+					pb = cc
+				}
+			}
+		}
+		ok, why := pa != nil && pb != nil, "both strings are no longer parsed"
+		if ok {
+			from := func(v ssa.Value, p *ssa.Call) bool {
+				srcs := cellSources(v)
+				if a, isA := v.(*ssa.Alloc); isA && a.Referrers() != nil {
+					srcs = nil
+					for _, ref := range *a.Referrers() {
+						if st, isSt := ref.(*ssa.Store); isSt && st.Addr == ssa.Value(a) {
+							srcs = append(srcs, cellSources(st.Val)...)
+						}
+					}
+				}
+				for _, s := range srcs {
+					if s != extract(p, 0) {
+						return false
+					}
+				}
+				return len(srcs) > 0
+			}
+			for _, alt := range an.ReturnAlts(fn) {
+				res := alt.Results[0]
+				if k, isC := res.(*ssa.Const); isC {
+					if !isTrueConst(k) {
+						continue
+					}
+					// true: only under a == b
+					same := false
+					for _, g := range alt.Guards {
+						if bo, isBo := g.Cond.(*ssa.BinOp); isBo && (bo.Op == token.EQL) == g.Truth && ((isParamOf(fn, bo.X, 0) && isParamOf(fn, bo.Y, 1)) || (isParamOf(fn, bo.X, 1) && isParamOf(fn, bo.Y, 0))) {
+							same = true
+						}
+					}
+					if !same {
+						ok, why = false, c.InstrPos(alt.Ret)+": true is returned without the strings being identical"
+					}
+					continue
+				}
+				eq, _ := an.ResultOfCall(firstSource(res))
+				if eq == nil || an.ShortCallee(&eq.Call) != "Equals" || len(eq.Call.Args) != 2 {
+					ok, why = false, c.InstrPos(alt.Ret)+": the result is not that of Equals on the parsed sets"
+					continue
+				}
+				a0, a1 := eq.Call.Args[0], eq.Call.Args[1]
+				if !((from(a0, pa) && from(a1, pb)) || (from(a0, pb) && from(a1, pa))) {
+					ok, why = false, c.InstrPos(alt.Ret)+": Equals does not compare Parse(a) with Parse(b)"
+				}
+			}
+			// a parse error means false
+			for _, p := range []*ssa.Call{pa, pb} {
+				reach := an.Explore(fn, an.After(p), an.Facts{extract(p, 1): an.NonNil}, nil)
+				for _, ret := range reach.Returns() {
+					for _, alt := range reach.Alts(ret) {
+						if reach.EvalAlt(alt, 0) != an.False {
+							ok, why = false, "a string that does not parse can compare equal"
+						}
+					}
+				}
+			}
+		}
+		r.Check(ok, "EQUAL", fkey(fn)+"/set-equality", c.Pos(fn.Pos()), "equal means identical text or Equal parsed sets", "two different CPU sets can be called equal ("+why+"): the write of the new set is skipped and the cgroup keeps CPUs that now belong to somebody else")
 	}
 }
